@@ -133,8 +133,8 @@ def family_big():
     def g(n, tag="a"):
         return grp(*[txt(tag + "%d" % i if n > 2 else (tag if i == 0 else "")) for i in range(n)])
     out = []
-    out.append(txt("/") + [x for i in range(10) for x in (g(2, "a"), ch(47))])                    # 2^10 = 1024 > limit
-    out.append(txt("/") + [x for i in range(9) for x in (g(2, "a"), ch(47))])                     # 512
+    out.append([x for i in range(10) for x in (ch(47), ch(120), g(2, "a"))])                      # /x{a,} ten times: 1024 > limit
+    out.append([x for i in range(9) for x in (ch(47), ch(120), g(2, "a"))])                       # 512
     out.append(txt("/") + [g(10), ch(47), g(10, "b"), ch(47), g(10, "c")])                        # 1000 = limit
     out.append(txt("/") + [grp([g(10), ch(47), g(10, "b"), ch(47), g(10, "c")], txt("x"))])       # 1001
     out.append(txt("/") + [g(10), ch(47), g(10, "b"), ch(47), g(10, "c"), ch(47), g(2, "d")])     # 2000
@@ -304,27 +304,28 @@ def run(ctx):
     pcodes = [codes(p) for p in P]
     dom, sizes = build_domain(ctx, rnd)
     ddir = ctx.subdir("domain")
+    tabdir = ctx.subdir("tables")
+    outdir = ctx.subdir("real")
+    obsdir = ctx.subdir("obs")
     ctx.log("domain: %d patterns %s, %d paths" % (len(dom), sizes, len(P)))
 
-    # ---- domain files
+    # ---- domain files: chunk i = a slice of the patterns (ASTs) + a slice of the pattern strings
     recs = [{"id": i + 1, "ast": a, "big": big} for i, (a, big) in enumerate(dom)]
-    ex_chunks = chunk(recs, ctx.pick(3, 24))
+    strs = strings_domain(ctx.pick(5, 6))
+    nch = ctx.pick(2, 20)
+    ex_chunks = chunk(recs, nch)
+    st_chunks = chunk(strs, len(ex_chunks))
+    while len(st_chunks) < len(ex_chunks):
+        st_chunks.append([])
     ex_dom = []
     for i, c in enumerate(ex_chunks):
         pth = os.path.join(ddir, "pat_%02d.json" % i)
-        write_json(pth, {"paths": pcodes, "patterns": c, "strings": []})
+        write_json(pth, {"paths": pcodes, "patterns": c, "strings": [codes(x) for x in st_chunks[i]]})
         ex_dom.append(pth)
-    strs = strings_domain(ctx.pick(5, 6))
-    st_chunks = chunk(strs, ctx.pick(1, 10))
-    st_dom = []
-    for i, c in enumerate(st_chunks):
-        pth = os.path.join(ddir, "str_%02d.json" % i)
-        write_json(pth, {"paths": [], "patterns": [], "strings": [codes(x) for x in c]})
-        st_dom.append(pth)
     # law domain: a small exhaustive core + a seeded sample of every family
     lawpats = [a for a in family_plain(ctx.pick(1, 2))]
     for fam in (family_one_group, family_three_alts, family_nested, family_two_groups):
-        lawpats += rnd.sample(list(fam()), ctx.pick(14, 150))
+        lawpats += rnd.sample(list(fam()), ctx.pick(12, 120))
     lawpats += family_big()[:2]
     lawrecs = [{"id": i + 1, "ast": a, "big": i >= len(lawpats) - 2} for i, a in enumerate(lawpats)]
     lawdom = os.path.join(ddir, "laws.json")
@@ -332,27 +333,51 @@ def run(ctx):
     empty = os.path.join(ddir, "empty.json")
     write_json(empty, {"paths": [], "patterns": [], "strings": []})
 
-    # ---- phase 1 (parallel): build driver, laws on the reference, expansion tables, Valid tables
-    tabdir = ctx.subdir("tables")
-
     def tab(mode, domfile, out, name):
         return lambda: rt.table(ctx, "PathPatternTable", "PathPatternTable.cfg", out,
-                                {"VERIF_MODE": mode, "VERIF_DOMAIN": domfile}, name=name, timeout=ctx.pick(900, 2400))
+                                {"VERIF_MODE": mode, "VERIF_DOMAIN": domfile}, name=name, timeout=ctx.pick(1200, 3000))
+
+    # ---- phase 1 (parallel): build the driver, laws on the reference, expansion + Valid tables
     ex_tabs = [os.path.join(tabdir, "expand_%02d.json" % i) for i in range(len(ex_dom))]
-    st_tabs = [os.path.join(tabdir, "valid_%02d.json" % i) for i in range(len(st_dom))]
     jobs = [lambda: goharness.ext_test_build(ctx, PKG),
             lambda: rt.laws(ctx, "PathPattern", "PathPattern_mc.cfg", env={"VERIF_DOMAIN": lawdom, "VERIF_MODE": "laws"},
-                            min_states=len(lawrecs), workers=ctx.pick(2, 4), timeout=ctx.pick(900, 2400))]
+                            min_states=len(lawrecs), workers=ctx.pick(1, 4), timeout=ctx.pick(1200, 3000))]
     jobs += [tab("expand", d, o, "tab_expand_%02d" % i) for i, (d, o) in enumerate(zip(ex_dom, ex_tabs))]
-    jobs += [tab("valid", d, o, "tab_valid_%02d" % i) for i, (d, o) in enumerate(zip(st_dom, st_tabs))]
-    res = rt.parallel(jobs, par + 1)
+    res = rt.parallel(jobs, par)
     binary, mc = res[0], res[1]
     tlc_wall = sum(r.wall for r in res[1:])
     if mc.distinct != len(lawrecs):
         raise InfraError("laws: TLC explored %d states for %d patterns" % (mc.distinct, len(lawrecs)))
-    ctx.log("laws on the reference: %d patterns ok (%.0fs); %d expansion tables, %d Valid tables" % (mc.distinct, mc.wall, len(ex_tabs), len(st_tabs)))
+    ctx.log("laws on the reference: %d patterns ok (%.0fs); %d expansion/Valid tables" % (mc.distinct, mc.wall, len(ex_tabs)))
 
-    # ---- phase 2: distinct expansions -> glob tables (TLC); meanwhile real-only drivers
+    # ---- real-only drivers (fast): accept/reject table, random observations, precedence
+    randobs = os.path.join(obsdir, "random.ndjson")
+    precobs = os.path.join(obsdir, "prec_all.ndjson")
+    nrand = ctx.pick(200, 6000)
+    jobs = [lambda: rt.drive(ctx, binary, "TestVerifC37Valid", os.path.join(outdir, "valid.ndjson"),
+                             env={"VERIF_DOMAINS": ",".join(ex_dom), "VERIF_TABLES": ",".join(ex_tabs)}, timeout=1500),
+            lambda: rt.drive(ctx, binary, "TestVerifC37Random", randobs, env={"VERIF_N": nrand, "VERIF_NPATHS": 6}, timeout=1500),
+            lambda: rt.drive(ctx, binary, "TestVerifC37Precedence", precobs,
+                             env={"VERIF_DOMAINS": ",".join(ex_dom), "VERIF_NSETS": ctx.pick(10, 150),
+                                  "VERIF_POOL_MAX": ctx.pick(1500, 6000), "VERIF_TRIPLE_MAX": ctx.pick(120, 250)}, timeout=2400)]
+    vrows, rrows, prows = rt.parallel(jobs, 3)
+
+    vst = rt.stats_of(vrows)
+    table_violations(vrows, violations, None)
+    if vst["evaluations"] != len(strs):
+        raise InfraError("Valid driver evaluated %d of %d strings" % (vst["evaluations"], len(strs)))
+    if vst["accepted"] < 10 or vst["rejected"] < 10:
+        raise InfraError("vacuity guard: Valid domain has %d accepted / %d rejected strings" % (vst["accepted"], vst["rejected"]))
+    ctx.log("accept/reject: %d pattern strings (%d accepted, %d rejected), %d differences" % (len(strs), vst["accepted"], vst["rejected"], vst["bad"]))
+    pst = rt.stats_of(prows)
+    table_violations(prows, violations, None)
+    if pst["sets"] < 10 or pst["max_matching"] < 3:
+        raise InfraError("vacuity guard: precedence driver recorded %d sets, max %d matching variants" % (pst["sets"], pst["max_matching"]))
+    ctx.log("precedence on real outputs: pool %d variants, %d compares, %d triples, %d permutations, %d law violations"
+            % (pst["pool"], pst["compares"], pst["triples"], pst["permutations"], pst["law_violations"]))
+
+    # ---- phase 2 (parallel): glob tables for the distinct expansions (T->I) and validation of the
+    #      recorded observations (I->T). Binding canaries ride along as cases 0 and -1 of chunk 0.
     distinct = {}
     nexp = 0
     for t in ex_tabs:
@@ -362,79 +387,59 @@ def run(ctx):
                     nexp += 1
                     distinct.setdefault(tuple(v), None)
     variants = sorted(distinct, key=lambda v: (len(v), v))
-    gl_chunks = chunk(variants, ctx.pick(3, 24))
+    gl_chunks = chunk(variants, ctx.pick(2, 20))
     gl_dom, gl_tabs = [], []
     for i, c in enumerate(gl_chunks):
         pth = os.path.join(ddir, "glob_%02d.json" % i)
         write_json(pth, {"paths": pcodes, "patterns": [], "strings": [list(v) for v in c]})
         gl_dom.append(pth)
         gl_tabs.append(os.path.join(tabdir, "glob_%02d.json" % i))
-    outdir = ctx.subdir("real")
-    obsdir = ctx.subdir("obs")
-    randobs = os.path.join(obsdir, "random.ndjson")
-    precobs = os.path.join(obsdir, "prec_all.ndjson")
-    nrand = ctx.pick(240, 6000)
-    jobs = [tab("glob", d, o, "tab_glob_%02d" % i) for i, (d, o) in enumerate(zip(gl_dom, gl_tabs))]
-    jobs.append(lambda: rt.drive(ctx, binary, "TestVerifC37Valid", os.path.join(outdir, "valid.ndjson"),
-                                 env={"VERIF_DOMAINS": ",".join(st_dom), "VERIF_TABLES": ",".join(st_tabs)}, timeout=1500))
-    jobs.append(lambda: rt.drive(ctx, binary, "TestVerifC37Random", randobs, env={"VERIF_N": nrand, "VERIF_NPATHS": 6}, timeout=1500))
-    jobs.append(lambda: rt.drive(ctx, binary, "TestVerifC37Precedence", precobs,
-                                 env={"VERIF_DOMAINS": ",".join(ex_dom), "VERIF_NSETS": ctx.pick(12, 150),
-                                      "VERIF_POOL_MAX": ctx.pick(1500, 6000), "VERIF_TRIPLE_MAX": ctx.pick(120, 250)}, timeout=2400))
-    res = rt.parallel(jobs, par + 2)
-    ng = len(gl_dom)
-    tlc_wall += sum(r.wall for r in res[:ng])
-    vrows, rrows, prows = res[ng], res[ng + 1], res[ng + 2]
-    ctx.log("tabulated PPM for %d distinct expansions (of %d) x %d paths in %d TLC runs" % (len(variants), nexp, len(P), ng))
 
-    # Valid table vs ParsePathPattern
-    vst = rt.stats_of(vrows)
-    table_violations(vrows, violations, None)
-    if vst["evaluations"] != len(strs):
-        raise InfraError("Valid driver evaluated %d of %d strings" % (vst["evaluations"], len(strs)))
-    if vst["accepted"] < 10 or vst["rejected"] < 10:
-        raise InfraError("vacuity guard: Valid domain has %d accepted / %d rejected strings" % (vst["accepted"], vst["rejected"]))
-    ctx.log("accept/reject: %d pattern strings (%d accepted, %d rejected), %d differences" % (len(strs), vst["accepted"], vst["rejected"], vst["bad"]))
-
-    # precedence: laws on the real outputs
-    pst = rt.stats_of(prows)
-    table_violations(prows, violations, None)
-    if pst["sets"] < 10 or pst["max_matching"] < 3:
-        raise InfraError("vacuity guard: precedence driver recorded %d sets, max %d matching variants" % (pst["sets"], pst["max_matching"]))
-    ctx.log("precedence on real outputs: pool %d variants, %d compares, %d triples, %d permutations, %d law violations"
-            % (pst["pool"], pst["compares"], pst["triples"], pst["permutations"], pst["law_violations"]))
-
-    # ---- phase 3 (parallel): table driver; I->T validations; binding canaries
     sets = [r for r in prows if r.get("kind") == "set"]
-    precsets = os.path.join(obsdir, "prec_sets.ndjson")
-    common.write_ndjson(precsets, sets)
-    rchunks, nobs = rt.split_ndjson(randobs, ctx.pick(2, 12), obsdir, prefix="rand")
-    pchunks, nsets = rt.split_ndjson(precsets, ctx.pick(1, 4), obsdir, prefix="prec")
+    okcases = [o for o in rrows if o["ok"] and o["m"] and o["m"][0] in (0, 1)]
+    if len(okcases) < 2 or len(sets) < 2:
+        raise InfraError("drivers produced too few observations (%d accepted random patterns, %d sets)" % (len(okcases), len(sets)))
+    c1 = json.loads(json.dumps(okcases[0]))
+    c1["case"] = 0
+    c1["m"][0] = 1 - c1["m"][0]                                     # one match result flipped
+    c2 = json.loads(json.dumps(okcases[1]))
+    c2["case"] = -1
+    c2["n"] += 1                                                   # NumVariants and callbacks off by one
+    c2["calls"] += 1
+    s1 = json.loads(json.dumps(sets[0]))
+    s1["case"] = 0
+    s1["winners"][-1] = 1 + (s1["winners"][-1] % s1["k"])          # one permutation picks another variant
+    s2 = json.loads(json.dumps(sets[1]))
+    s2["case"] = -1
+    s2["cmp"][0][1] = s2["cmp"][1][0]                              # asymmetry broken
+    canaries = [c1, c2, s1, s2]
+    nobs_chunks = ctx.pick(2, 12)
+    r_parts = chunk(rrows, nobs_chunks)
+    s_parts = chunk(sets, nobs_chunks)
+    obs_files = []
+    for i in range(max(len(r_parts), len(s_parts))):
+        part = (canaries if i == 0 else []) + (r_parts[i] if i < len(r_parts) else []) + (s_parts[i] if i < len(s_parts) else [])
+        pth = os.path.join(obsdir, "obs_%02d.ndjson" % i)
+        common.write_ndjson(pth, part)
+        obs_files.append((pth, len(part)))
     robs = {o["case"]: o for o in rrows}
     sobs = {o["case"]: o for o in sets}
 
-    def val(mode, pth, tag):
+    def val(pth, tag):
         return lambda: rt.validate_obs(ctx, "TracePathPattern", "TracePathPattern.cfg", pth,
                                        os.path.join(obsdir, "verdict_%s.json" % tag), name="obs_%s" % tag,
-                                       env={"VERIF_MODE": mode, "VERIF_DOMAIN": empty}, timeout=ctx.pick(900, 2400))
-    # canaries: one corrupted observation per mode must be rejected and named
-    okcases = [o for o in rrows if o["ok"] and o["m"]][:6]
-    if not okcases:
-        raise InfraError("random driver produced no accepted pattern")
-    c1 = json.loads(json.dumps(okcases[0]))
-    c1["m"][0] = 1 - c1["m"][0] if c1["m"][0] in (0, 1) else 0
-    c2 = json.loads(json.dumps(okcases[1 % len(okcases)]))
-    c2["n"] += 1
-    c2["calls"] += 1
-    cm = os.path.join(obsdir, "corrupt_match.ndjson")
-    common.write_ndjson(cm, [c1, c2] + okcases[2:])
-    s1 = json.loads(json.dumps(sets[0]))
-    s1["winners"][-1] = 1 + (s1["winners"][-1] % s1["k"])         # one permutation picks another variant
-    s2 = json.loads(json.dumps(sets[1 % len(sets)]))
-    s2["cmp"][0][1] = s2["cmp"][1][0]                              # asymmetry broken
-    cp = os.path.join(obsdir, "corrupt_prec.ndjson")
-    common.write_ndjson(cp, [s1, s2] + sets[2:6])
-    # T->I canary: corrupt one glob row and one expansion row
+                                       env={"VERIF_DOMAIN": empty}, timeout=ctx.pick(1200, 3000))
+    jobs = [tab("glob", d, o, "tab_glob_%02d" % i) for i, (d, o) in enumerate(zip(gl_dom, gl_tabs))]
+    ng = len(jobs)
+    jobs += [val(pth, "%02d" % i) for i, (pth, _n) in enumerate(obs_files)]
+    res = rt.parallel(jobs, par)
+    tlc_wall += sum(r.wall for r in res[:ng])
+    ores = res[ng:]
+    ctx.log("tabulated PPM for %d distinct expansions (of %d) x %d paths in %d TLC runs; %d observation files validated"
+            % (len(variants), nexp, len(P), ng, len(obs_files)))
+
+    # ---- phase 3: the real code on the whole tabulated domain; T->I canary = corrupted copies of
+    #      one glob row and one expansion row, seen only by a second run of the Go driver
     with open(gl_tabs[0]) as f:
         g0 = json.load(f)
     with open(gl_dom[0]) as f:
@@ -460,49 +465,41 @@ def run(ctx):
     e0bad = os.path.join(tabdir, "expand_corrupt.json")
     write_json(e0bad, e0)
 
-    def table_drv(tag, doms, exps, gtabs, maxm):
+    def table_drv(tag, doms, exps, gtabs):
         return lambda: rt.drive(ctx, binary, "TestVerifC37Table", os.path.join(outdir, "table_%s.ndjson" % tag),
                                 env={"VERIF_DOMAINS": ",".join(doms), "VERIF_EXPAND": ",".join(exps),
                                      "VERIF_GLOBDOM": ",".join(gl_dom), "VERIF_GLOB": ",".join(gtabs),
-                                     "VERIF_MAX_MISMATCH": maxm}, timeout=2400)
-    jobs = [table_drv("all", ex_dom, ex_tabs, gl_tabs, 100000),
-            table_drv("canary", [ex_dom[ec]], [e0bad], [g0bad] + gl_tabs[1:], 100000),
-            val("match", cm, "corrupt_match"), val("prec", cp, "corrupt_prec")]
-    jobs += [val("match", pth, "rand_%02d" % i) for i, pth in enumerate(rchunks)]
-    jobs += [val("prec", pth, "prec_%02d" % i) for i, pth in enumerate(pchunks)]
-    res = rt.parallel(jobs, par + 1)
-    trows, crows = res[0], res[1]
-    (cmv, _), (cpv, _) = res[2], res[3]
-    rres = res[4:4 + len(rchunks)]
-    pres = res[4 + len(rchunks):]
-
-    # binding canaries
+                                     "VERIF_MAX_MISMATCH": 100000}, timeout=2400)
+    trows, crows = rt.parallel([table_drv("all", ex_dom, ex_tabs, gl_tabs),
+                                table_drv("canary", [ex_dom[ec]], [e0bad], [g0bad] + gl_tabs[1:])], 2)
     if not any(r.get("kind") == "glob" and r["v"] == canary_v for r in crows):
         raise InfraError("binding canary: a corrupted glob-table row for %r was not reported by the driver" % canary_v)
     if not any(r.get("kind") == "count" and r["p"] == canary_p for r in crows):
         raise InfraError("binding canary: a corrupted expansion row for %r was not reported by the driver" % canary_p)
-    badc = set(b["case"] for b in cmv["bad"])
-    if c1["case"] not in badc or c2["case"] not in badc:
-        raise InfraError("binding canary: corrupted random observations (cases %d, %d) were accepted by TracePathPattern: %s"
-                         % (c1["case"], c2["case"], sorted(badc)))
-    badp = set(b["case"] for b in cpv["bad"])
-    if s1["case"] not in badp or s2["case"] not in badp:
-        raise InfraError("binding canary: corrupted precedence observations (cases %d, %d) were accepted by TracePathPattern: %s"
-                         % (s1["case"], s2["case"], sorted(badp)))
-
-    # table driver
     tst = rt.stats_of(trows)
     if tst["patterns"] != len(dom):
         raise InfraError("table driver evaluated %d of %d patterns" % (tst["patterns"], len(dom)))
     table_violations(trows, violations, None)
     ctx.log("real code on %d patterns x %d paths: differences by kind %s" % (tst["patterns"], tst["paths"], tst["total"]))
 
-    # I->T random
-    checked = 0
-    rand_bad = 0
-    for v, _ok in rres:
-        checked += v["checked"]
+    # ---- I->T verdicts
+    checked = pchecked = rand_bad = 0
+    canary_hit = set()
+    for (v, _ok), (_pth, n) in zip(ores, obs_files):
+        if v["checked"] != n:
+            raise InfraError("I->T: %d observations written, %d validated" % (n, v["checked"]))
         for b in v["bad"]:
+            if b["case"] <= 0:
+                canary_hit.add((b["kind"], b["case"]))
+                continue
+            if b["kind"] == "set":
+                o = sobs[b["case"]]
+                failed = [k for k in ("noerror", "irreflexive", "asymmetric", "transitive", "tiesidentical", "winnersmax", "oneclass") if not b[k]]
+                violations.append(Violation(
+                    key="precedence-order: path=%s variants=%s" % (rt.q(o["path"]), json.dumps(o["vs"])),
+                    desc="recorded Compare matrix / winners for variants %s on path %s rejected by TracePathPattern (%s)"
+                         % (json.dumps(o["vs"]), rt.q(o["path"]), ",".join(failed)), replay=o))
+                continue
             o = robs[b["case"]]
             rand_bad += 1
             if b["exp_ok"] != b["got_ok"]:
@@ -522,26 +519,15 @@ def run(ctx):
                     desc="PathPatternMatches(%s,%s) = %s but RefMatch (some expansion matches) = %s (random case %d, seed %d)"
                          % (rt.q(o["s"]), rt.q(o["spaths"][j]), b["got_m"][j], b["exp_m"][j], b["case"], ctx.seed),
                     replay={"pattern": o["s"], "path": o["spaths"][j], "real": b["got_m"][j], "reference": b["exp_m"][j], "n": o["n"]}))
-    if checked != nobs or nobs != nrand:
-        raise InfraError("I->T: %d random observations recorded, %d written, %d validated" % (nrand, nobs, checked))
+    want = {("match", 0), ("match", -1), ("set", 0), ("set", -1)}
+    if canary_hit != want:
+        raise InfraError("binding canary: corrupted observations accepted by TracePathPattern: %s" % sorted(want - canary_hit))
+    checked, pchecked = len(rrows), len(sets)
+    if checked != nrand:
+        raise InfraError("I->T: %d random observations requested, %d recorded" % (nrand, checked))
     rand_or_diff = sum(1 for o in rrows if o["ok"] and o["m"] != o["or_variants"])
-    ctx.log("I->T: %d random patterns validated by TLC, %d differ from the reference; %d differ from the OR over their own variants"
-            % (checked, rand_bad, rand_or_diff))
-
-    # I->T precedence
-    pchecked = 0
-    for v, _ok in pres:
-        pchecked += v["checked"]
-        for b in v["bad"]:
-            o = sobs[b["case"]]
-            failed = [k for k in ("noerror", "irreflexive", "asymmetric", "transitive", "tiesidentical", "winnersmax", "oneclass") if not b[k]]
-            violations.append(Violation(
-                key="precedence-order: path=%s variants=%s" % (rt.q(o["path"]), json.dumps(o["vs"])),
-                desc="recorded Compare matrix / winners for variants %s on path %s rejected by TracePathPattern (%s)"
-                     % (json.dumps(o["vs"]), rt.q(o["path"]), ",".join(failed)), replay=o))
-    if pchecked != nsets or nsets != len(sets):
-        raise InfraError("I->T: %d precedence sets recorded, %d validated" % (len(sets), pchecked))
-    ctx.log("I->T: %d precedence sets (all permutations) validated by TLC" % pchecked)
+    ctx.log("I->T: %d random patterns and %d precedence sets (all permutations) validated by TLC; %d random patterns differ from the "
+            "reference, %d from the OR over their own variants" % (checked, pchecked, rand_bad, rand_or_diff))
 
     # ---- de-duplicate, cap per class
     seen = set()
@@ -562,6 +548,12 @@ def run(ctx):
         cnt[c] = cnt.get(c, 0) + 1
         if cnt[c] <= cap:
             kept.append(v)
+    rank = {}
+    order = []
+    for v in kept:
+        rank[klass(v)] = rank.get(klass(v), 0) + 1
+        order.append((rank[klass(v)], klass(v), v))
+    kept = [v for _r, _c, v in sorted(order, key=lambda x: (x[0], x[1]))]
     if len(kept) < len(uniq):
         notes.append("%d distinct violation keys in %d classes; the %d shortest keys of every class are reported (see violations_by_class)"
                      % (len(uniq), len(byclass), cap))
@@ -603,7 +595,8 @@ def run(ctx):
         "tlc_law_invariants": ["CountIsLen", "OptimizeNeutral", "ExpansionsPlain", "RenderedValid", "SlashRules",
                                "EscapeIsLiteral", "EscapedStarLiteral"],
         "tlc_constants": {"Limit": LIMIT, "paths": len(P), "law_patterns": len(lawrecs)},
-        "tlc_table_runs": len(ex_tabs) + len(st_tabs) + len(gl_tabs),
+        "tlc_table_runs": len(ex_tabs) + len(gl_tabs),
+        "tlc_observation_runs": len(obs_files),
         "tlc_jvm_seconds": round(tlc_wall),
         "binding_canaries": "corrupted glob row, corrupted expansion row, corrupted random observations (match bit, count) and "
                             "corrupted precedence observations (winner, asymmetry) all rejected and named",
